@@ -284,6 +284,219 @@ theorem mmap_within_value (d : Decl) (n : Nat) (h : mmapLen d = some n) :
   | dict ks vs size lru => cases h
   | progArray => cases h
 
+/-! ### several live instances around one shared map descriptor
+
+`runHist` is the library's behaviour with its state (`World`: the size on the shared descriptor
+and what every instance keeps for itself); `specHist` has no shared state at all: a use of the
+idx-th instance issues the calls of that instance's OWN declaration.  They are equal for every
+family, every order of creation and every interleaving of uses (`runHist_eq_spec`), hence every
+command of every live instance is within — and exactly — the geometry of that instance's own
+map (`C10_instances`). -/
+
+def Good (st : InstState) : Prop :=
+  st.geo = geometry st.decl ∧ ∀ s, st.decl = .percpu s → st.readerSize = mapSize s
+
+def Inv (f : Family) (w : World) (pre : List Inst) : Prop :=
+  (∀ st ∈ w.insts, Good st) ∧ w.insts.map (·.decl) = pre.map (instDecl f)
+
+theorem inv_empty (f : Family) : Inv f World.empty [] := by
+  constructor
+  · intro st h; cases h
+  · rfl
+
+theorem inv_create (f : Family) (w : World) (pre : List Inst) (i : Inst) (h : Inv f w pre) :
+    Inv f (createInst f w i) (pre ++ [i]) := by
+  obtain ⟨hg, hm⟩ := h
+  constructor
+  · intro st hst
+    simp only [createInst, List.mem_append, List.mem_singleton] at hst
+    rcases hst with hst | rfl
+    · exact hg st hst
+    · refine ⟨rfl, ?_⟩
+      intro s hs
+      simp only at hs
+      simp only [hs, collected]
+  · simp [createInst, hm]
+
+theorem inv_lookup (f : Family) (w : World) (pre : List Inst) (h : Inv f w pre) (idx : Nat) :
+    (∀ st, w.insts[idx]? = some st → ∃ inst, pre[idx]? = some inst ∧ st.decl = instDecl f inst ∧ Good st) ∧
+    (w.insts[idx]? = none → pre[idx]? = none) := by
+  obtain ⟨hg, hm⟩ := h
+  have hi : (w.insts.map (·.decl))[idx]? = (pre.map (instDecl f))[idx]? := by rw [hm]
+  rw [List.getElem?_map, List.getElem?_map] at hi
+  constructor
+  · intro st hst
+    rw [hst] at hi
+    cases hp : pre[idx]? with
+    | none => rw [hp] at hi; cases hi
+    | some inst =>
+      rw [hp] at hi
+      simp only [Option.map_some, Option.some.injEq] at hi
+      exact ⟨inst, rfl, hi, hg st (List.mem_of_getElem? hst)⟩
+  · intro hn
+    rw [hn] at hi
+    cases hp : pre[idx]? with
+    | none => rfl
+    | some inst => rw [hp] at hi; cases hi
+
+/-- with what the instance stored at its creation, an API call issues the calls of its own declaration -/
+theorem callsI_eq (ncpu : Nat) (st : InstState) (hg : Good st) (a : Api) :
+    callsI ncpu st a = calls ncpu st.decl a := by
+  cases a <;> try rfl
+  case percpuRead =>
+    show percpuReadI ncpu st = calls ncpu st.decl .percpuRead
+    unfold percpuReadI
+    cases hd : st.decl with
+    | percpu s => simp only []; rw [hg.2 s hd]; rfl
+    | _ => rfl
+
+/-- the stateless specification: nothing is shared between instances -/
+def specUse (f : Family) (ncpu : Nat) (pre : List Inst) (idx : Nat) (a : Api) : List Call :=
+  match pre[idx]? with
+  | some inst => calls ncpu (instDecl f inst) a
+  | none => []
+
+def specHist (f : Family) (ncpu : Nat) : List Inst → List Event → List (Nat × Call)
+  | _, [] => []
+  | pre, .create i :: es => specHist f ncpu (pre ++ [i]) es
+  | pre, .use idx a :: es => (specUse f ncpu pre idx a).map (fun c => (idx, c)) ++ specHist f ncpu pre es
+
+theorem step_use_spec (f : Family) (ncpu : Nat) (w : World) (pre : List Inst) (h : Inv f w pre)
+    (idx : Nat) (a : Api) :
+    stepEvent f ncpu w (.use idx a) = (w, specUse f ncpu pre idx a) := by
+  have hl := inv_lookup f w pre h idx
+  cases hw : w.insts[idx]? with
+  | none => simp [stepEvent, specUse, hw, hl.2 hw]
+  | some st =>
+    obtain ⟨inst, hp, hd, hgood⟩ := hl.1 st hw
+    simp [stepEvent, specUse, hw, hp, callsI_eq ncpu st hgood a, hd]
+
+theorem runHist_eq_spec_gen (f : Family) (ncpu : Nat) (es : List Event) :
+    ∀ (w : World) (pre : List Inst), Inv f w pre → runHist f ncpu w es = specHist f ncpu pre es := by
+  induction es with
+  | nil => intro w pre _; rfl
+  | cons e es ih =>
+    intro w pre h
+    cases e with
+    | create i =>
+      simp only [runHist, specHist, stepEvent, List.nil_append]
+      exact ih _ _ (inv_create f w pre i h)
+    | use idx a =>
+      simp only [runHist, specHist, step_use_spec f ncpu w pre h idx a]
+      rw [ih w pre h]
+
+/-- **instances are independent**: for every family, every order of creation and every
+interleaving of uses, the library (with the size kept on the shared descriptor and the sizes
+kept per instance) issues exactly what the stateless specification issues -/
+theorem runHist_eq_spec (f : Family) (ncpu : Nat) (es : List Event) :
+    runHist f ncpu World.empty es = specHist f ncpu [] es :=
+  runHist_eq_spec_gen f ncpu es _ _ (inv_empty f)
+
+def worldAfter (f : Family) (ncpu : Nat) (w : World) (es : List Event) : World :=
+  es.foldl (fun w e => (stepEvent f ncpu w e).1) w
+
+theorem inv_after (f : Family) (ncpu : Nat) (es : List Event) :
+    ∀ (w : World) (pre : List Inst), Inv f w pre → Inv f (worldAfter f ncpu w es) (pre ++ createdOf es) := by
+  induction es with
+  | nil => intro w pre h; simpa [worldAfter, createdOf] using h
+  | cons e es ih =>
+    intro w pre h
+    cases e with
+    | create i =>
+      have := ih _ _ (inv_create f w pre i h)
+      simpa [worldAfter, createdOf, stepEvent, List.append_assoc] using this
+    | use idx a =>
+      have := ih w pre h
+      simpa [worldAfter, createdOf, step_use_spec f ncpu w pre h idx a] using this
+
+/-- after ANY history, a use of an instance issues the calls of that instance's own declaration:
+the buffer sizes of each entry point are a function of the instance's own map geometry -/
+theorem use_calls_own (f : Family) (ncpu : Nat) (es : List Event) (idx : Nat) (a : Api) (inst : Inst)
+    (h : (createdOf es)[idx]? = some inst) :
+    (stepEvent f ncpu (worldAfter f ncpu World.empty es) (.use idx a)).2 = calls ncpu (instDecl f inst) a := by
+  have hi := inv_after f ncpu es _ _ (inv_empty f)
+  rw [step_use_spec f ncpu _ _ hi idx a]
+  simp [specUse, h]
+
+theorem calls_nil_of_no_map (d : Decl) (ncpu : Nat) (hg : geometry d = none) (a : Api) : calls ncpu d a = [] := by
+  have := no_map_no_calls d ncpu hg [a]
+  simpa using this
+
+theorem spec_mem (f : Family) (ncpu : Nat) (es : List Event) :
+    ∀ (pre : List Inst) (idx : Nat) (c : Call), (idx, c) ∈ specHist f ncpu pre es →
+      ∃ inst a, (pre ++ createdOf es)[idx]? = some inst ∧ c ∈ calls ncpu (instDecl f inst) a := by
+  induction es with
+  | nil => intro pre idx c h; cases h
+  | cons e es ih =>
+    intro pre idx c h
+    cases e with
+    | create i =>
+      obtain ⟨inst, a, h1, h2⟩ := ih _ idx c h
+      exact ⟨inst, a, by simpa [createdOf, List.append_assoc] using h1, h2⟩
+    | use j a =>
+      simp only [specHist, List.mem_append, List.mem_map] at h
+      rcases h with ⟨c', hc', heq⟩ | h
+      · cases heq
+        unfold specUse at hc'
+        cases hp : pre[idx]? with
+        | none => rw [hp] at hc'; cases hc'
+        | some inst =>
+          rw [hp] at hc'
+          have hlt : idx < pre.length := (List.getElem?_eq_some_iff.mp hp).1
+          exact ⟨inst, a, by rw [List.getElem?_append_left hlt]; exact hp, hc'⟩
+      · obtain ⟨inst, a', h1, h2⟩ := ih pre idx c h
+        exact ⟨inst, a', by simpa [createdOf] using h1, h2⟩
+
+/-- **C10 for several live instances**: ∀ families (base class, derived classes adding variables or
+overriding the Dict, sub-program sets), ∀ possible-CPU counts, ∀ histories (instances created in any
+order, all kept alive, used in any interleaving): every command issued for the idx-th instance
+passes buffers within — and exactly of — the geometry of THAT instance's own map -/
+theorem C10_instances (f : Family) (ncpu : Nat) (es : List Event) (idx : Nat) (c : Call)
+    (h : (idx, c) ∈ runHist f ncpu World.empty es) :
+    ∃ inst g, (createdOf es)[idx]? = some inst ∧ geometry (instDecl f inst) = some g ∧
+      c.ok g ncpu = true ∧ c.exact g ncpu = true := by
+  rw [runHist_eq_spec] at h
+  obtain ⟨inst, a, h1, h2⟩ := spec_mem f ncpu es [] idx c h
+  simp only [List.nil_append] at h1
+  cases hg : geometry (instDecl f inst) with
+  | none => rw [calls_nil_of_no_map _ ncpu hg a] at h2; cases h2
+  | some g =>
+    have hm : c ∈ [a].flatMap (calls ncpu (instDecl f inst)) := by simpa using h2
+    exact ⟨inst, g, h1, hg, C10 _ ncpu g hg [a] c hm, C10_exact _ ncpu g hg [a] c hm⟩
+
+/-- the size kept on the shared descriptor is the size of the instance created last: a read
+sized by it is too short for every live instance whose own map is larger -/
+theorem percpu_shared_size_too_short (s : List Nat) (last ncpu : Nat) (g : Geometry)
+    (hg : geometry (.percpu s) = some g) (hl : last < g.valueSize) (hn : 0 < ncpu) :
+    ∀ c ∈ percpuReadCall last ncpu, c.ok g ncpu = false := by
+  intro c hc
+  simp only [geometry] at hg
+  split at hg
+  · cases hg
+  · cases hg
+    simp only at hl
+    unfold percpuReadCall at hc
+    split at hc
+    · cases hc
+    · simp only [List.mem_singleton] at hc
+      subst hc
+      have hlt : last * ncpu < mapSize s * ncpu := Nat.mul_lt_mul_of_pos_right hl hn
+      simp [Call.ok, lenAtLeast, valueBytes, mapSize, roundUp8_idem]
+      intro _
+      simpa [mapSize] using hlt
+
+/-- witness: `Derived` (adds two 8-byte variables to the base class's per-CPU map) is created
+first, `Base` afterwards; the descriptor now holds 8, the derived instance's map has 24 -/
+def sharedWitness : Family := .percpu [8] [[8, 8]] []
+def sharedWitnessWorld : World := worldAfter sharedWitness 4 World.empty [.create ⟨1, []⟩, .create ⟨0, []⟩]
+
+theorem percpu_shared_size_refuted :
+    geometry (instDecl sharedWitness ⟨1, []⟩) = some ⟨mt_PERCPU_ARRAY, 4, 24, 1, 0⟩ ∧
+    percpuReadCallShared sharedWitnessWorld 4 = [⟨bpf_LOOKUP, some 4, some 32⟩] ∧
+    (⟨bpf_LOOKUP, some 4, some 32⟩ : Call).ok ⟨mt_PERCPU_ARRAY, 4, 24, 1, 0⟩ 4 = false ∧
+    (stepEvent sharedWitness 4 sharedWitnessWorld (.use 0 .percpuRead)).2 = [⟨bpf_LOOKUP, some 4, some 96⟩] := by
+  decide
+
 /-! ### non-vacuity: concrete declarations, call sequences and CPU counts -/
 
 example : geometry (.percpu [4, 8, 2]) = some ⟨6, 4, 16, 1, 0⟩ := by decide
@@ -297,5 +510,15 @@ example : [Api.dSet, .dIter 2, .dPop, .dDel].flatMap (calls 4 (.dict [8, 4, 2, 1
      ⟨dict_pop_cmd, some 15, some 13⟩, ⟨3, some 15, none⟩] := by decide
 example : calls 4 .progArray (.register 1) =
     [⟨1, some 4, some 4⟩, ⟨1, some 4, some 4⟩, ⟨2, some 4, some 4⟩, ⟨3, some 4, none⟩] := by decide
+
+/- several instances: a derived class with more variables, the base class, the base class with a
+sub-program; created in that order, all used afterwards -/
+example : runHist (.percpu [4] [[8, 8]] [[2]]) 3 World.empty
+    [.create ⟨1, []⟩, .create ⟨0, []⟩, .use 0 .percpuRead, .create ⟨0, [0, 0]⟩, .use 1 .percpuRead,
+     .use 2 .percpuRead, .use 0 .percpuRead] =
+    [(0, ⟨1, some 4, some 72⟩), (1, ⟨1, some 4, some 24⟩), (2, ⟨1, some 4, some 24⟩), (0, ⟨1, some 4, some 72⟩)] := by decide
+example : runHist (.dict ⟨[4], [8], 31, false⟩ [none, some ⟨[4], [8, 8], 3, false⟩]) 4 World.empty
+    [.create ⟨2, []⟩, .create ⟨0, []⟩, .use 0 .dGet, .use 1 .dGet, .create ⟨1, []⟩, .use 2 .dSet] =
+    [(0, ⟨1, some 4, some 16⟩), (1, ⟨1, some 4, some 8⟩), (2, ⟨2, some 4, some 8⟩)] := by decide
 
 end Ebv.C10
